@@ -10,6 +10,60 @@ from ..report import Report
 WRITE_CALLS = {"_set_node_attr", "_set_nodes_attr", "_set_edge_attr", "_set_edges_attr"}
 
 
+_ACTIVE_CACHE: dict = {}
+_PREDS: list = [set(), {"features"}]  # filled by update_guards from active_accessors(P)
+
+
+def active_accessors(P: Program) -> tuple[set[str], set[str]]:
+    """Names through which an annotator sees its ACTIVE features, discovered from GraphAnnotator:
+    collections = properties / methods returning `all_features` filtered by the inclusion flag (`features`, ...),
+    predicates  = methods (self, key) answering whether key's flag is set (`is_active`, ...)."""
+    key = id(P)
+    if key in _ACTIVE_CACHE:
+        return _ACTIVE_CACHE[key]
+    colls, preds = {"features"}, set()
+    base = P.class_named("GraphAnnotator")
+    for m in (base.methods.values() if base else []):
+        rets = [r for r in ast.walk(m.node) if isinstance(r, ast.Return) and r.value is not None]
+        if not rets:
+            continue
+        # collection: every return is a comprehension over self.all_features.items() filtered by the flag
+        def flag_filtered(v):
+            if isinstance(v, (ast.DictComp, ast.ListComp, ast.SetComp)) and len(v.generators) == 1:
+                g = v.generators[0]
+                if "all_features.items()" in norm(g.iter) and isinstance(g.target, ast.Tuple) and len(g.target.elts) == 2 and isinstance(g.target.elts[1], ast.Tuple):
+                    flag = norm(g.target.elts[1].elts[-1])
+                    return any(norm(c) == flag for c in g.ifs)
+            return False
+
+        if all(flag_filtered(r.value) for r in rets):
+            colls.add(m.name)
+            continue
+        # the explicit-loop form of the same:  for k, (f, included) in self.all_features.items(): if included: out[k] = f
+        loops = [lp for lp in ast.walk(m.node) if isinstance(lp, ast.For) and "all_features.items()" in norm(lp.iter) and isinstance(lp.target, ast.Tuple)
+                 and len(lp.target.elts) == 2 and isinstance(lp.target.elts[1], ast.Tuple)]
+        if len(loops) == 1 and len(rets) == 1 and isinstance(rets[0].value, ast.Name):
+            flag = norm(loops[0].target.elts[1].elts[-1])
+            body = loops[0].body
+            if len(body) == 1 and isinstance(body[0], ast.If) and norm(body[0].test) == flag and not body[0].orelse:
+                colls.add(m.name)
+                continue
+        # predicate: (self, key) -> flag of all_features[key]
+        if len(m.params) == 2:
+            kp = m.params[1]
+            flags = set()
+            for s_ in ast.walk(m.node):
+                if isinstance(s_, ast.Assign) and isinstance(s_.targets[0], ast.Tuple) and len(s_.targets[0].elts) == 2:
+                    srcs = {norm(s_.value)} | {norm(d_.value) for d_ in ast.walk(m.node) if isinstance(d_, ast.Assign) and norm(d_.targets[0]) == norm(s_.value)}
+                    if any("all_features" in x and kp in x for x in srcs):
+                        flags.add(norm(s_.targets[0].elts[1]))
+            ok = bool(flags) and all(norm(r.value) in ("False",) or norm(r.value) in flags or norm(r.value) in {f"bool({f_})" for f_ in flags} for r in rets)
+            if ok:
+                preds.add(m.name)
+    _ACTIVE_CACHE[key] = (colls, preds)
+    return colls, preds
+
+
 def early_returns(f: FuncInfo) -> list[tuple[ast.If, str]]:
     """`if <test>: return` statements at the top level of the function body."""
     out = []
@@ -28,6 +82,9 @@ def classify_guard(test: ast.expr, action_param: str | None, f: FuncInfo | None 
         return "type-filter"
     if txt in ("self.tracks.segmentation is None",):
         return "no-segmentation"
+    if isinstance(test, ast.UnaryOp) and isinstance(test.op, ast.Not) and isinstance(test.operand, ast.Call) and isinstance(test.operand.func, ast.Attribute) \
+            and norm(test.operand.func.value) == "self" and test.operand.func.attr in _PREDS[0]:
+        return "feature-gate"
     if isinstance(test, ast.Compare) and len(test.ops) == 1 and isinstance(test.ops[0], ast.NotIn):
         comp = test.comparators[0]
         if norm(comp) in ("self.features", "self.features.keys()"):
@@ -48,6 +105,8 @@ def update_guards(P: Program, R, a: ClassInfo, rule: str) -> None:
     upd = a.methods.get("update")
     if upd is None:
         return
+    colls_, preds_ = active_accessors(P)
+    _PREDS[0], _PREDS[1] = preds_, colls_
     action = upd.params[1] if len(upd.params) > 1 else None
     # `not keys` style guards must test a list derived from the active features
     for node, txt in early_returns(upd):
@@ -55,7 +114,7 @@ def update_guards(P: Program, R, a: ClassInfo, rule: str) -> None:
         if kind == "nothing-active":
             nm = node.test.operand.id
             defs = [s for s in ast.walk(upd.node) if isinstance(s, ast.Assign) and any(isinstance(t, ast.Name) and t.id == nm for t in s.targets)]
-            if not defs or not all("self.features" in norm(d.value) or "_filter_feature_keys" in norm(d.value) for d in defs):
+            if not defs or not all("self.features" in norm(d.value) or "_filter_feature_keys" in norm(d.value) or any(f"self.{c_}" in norm(d.value) for c_ in colls_) for d in defs):
                 kind = "other"
         R.check(kind != "other", rule, upd, node, f"{a.name}.update: early exit `{txt[:70]}` is an accepted idiom ({kind})",
                 f"update() returns early on `{txt[:120]}`: for actions that do change what the feature depends on, the stored value goes stale",
